@@ -372,6 +372,54 @@ def tagged_value_assignment_case(rng, res, label):
         return
 
 
+def construction_and_update_callable_cases(res):
+  """(1) A Buildable constructed while tracking is suspended records nothing and uses no sequence number
+  (suspension appends nothing - also not the initial callable entry).  (2) update_callable with
+  drop_invalid_args=True unsets arguments: each of them is an edit, so its history must end with the deletion
+  marker (the history of a parameter ends with its current state)."""
+  from fiddle._src import history as history_lib
+  from fiddle._src import mutate_buildable
+  for kind in (fdl.Config, fdl.Partial):
+    res.evaluations += 1
+    res.count("construct-under-suspension")
+    probe1 = fdl.Config(l2.fa, 1)
+    with history_lib.suspend_tracking():
+      inside = kind(l2.fa, 1, b=[2])
+      with history_lib.suspend_tracking():
+        pass
+      inside2 = kind(l2.Ka, p=inside)
+    probe2 = fdl.Config(l2.fa, 1)
+    seq = lambda c: [e.sequence_id for es in c.__argument_history__.values() for e in es]
+    for c in (inside, inside2):
+      entries = {k: len(v) for k, v in c.__argument_history__.items() if v}
+      if entries:
+        res.failures.append(Failure(None, f"C16 construction under suspend_tracking recorded history {entries}",
+                                    {"kind": kind.__name__}))
+        break
+    else:
+      if min(seq(probe2)) - max(seq(probe1)) != 1:
+        res.failures.append(Failure(None, "C16 construction under suspend_tracking consumed sequence numbers: "
+                                    f"{max(seq(probe1))} .. {min(seq(probe2))}", {"kind": kind.__name__}))
+  for kind in (fdl.Config, fdl.Partial):
+    res.evaluations += 1
+    res.count("update-callable-drop")
+    cfg = kind(l2.fd, x=1, y=[2], z=3)          # fd(**kw) -> Ka(p, q): x, y, z become invalid
+    cfg.p = 5
+    mutate_buildable.update_callable(cfg, l2.Ka, drop_invalid_args=True)
+    problems = []
+    for name in ("x", "y", "z"):
+      es = cfg.__argument_history__.get(name, [])
+      if name in cfg.__arguments__:
+        problems.append(f"{name} was not dropped")
+      elif not es or es[-1].kind != history_lib.ChangeKind.NEW_VALUE or es[-1].new_value is not history_lib.DELETED:
+        problems.append(f"the history of dropped argument {name!r} does not end with the deletion marker: "
+                        f"{[getattr(e.new_value, '__name__', e.new_value) for e in es]!r:.120}")
+    if cfg.__argument_history__["p"][-1].new_value != 5:
+      problems.append("history of a kept argument changed")
+    for p_ in problems[:1]:
+      res.failures.append(Failure(None, f"C16 update_callable(drop_invalid_args=True): {p_}", {"kind": kind.__name__}))
+
+
 def thread_run(res, n_threads, n_edits, label):
   results = [None] * n_threads
   barrier = threading.Barrier(n_threads)
@@ -439,4 +487,5 @@ def run(tier: str, seed: int) -> Result:
     thread_run(res, rng.randint(2, 4), rng.randint(20, 120), f"threads#{i}")
   for i in range(60 if tier == "quick" else 2000):
     tagged_value_assignment_case(rng, res, f"tv-assign#{i}")
+  construction_and_update_callable_cases(res)
   return res
